@@ -435,41 +435,65 @@ func (self *visitorUserNode) OnObjectBegin(capacity int) error {
 
 // MapKey maybe int32/sint32/uint32/uint64 etc....
 func (self *visitorUserNode) encodeMapKey(key string, t proto.Type) error {
+	badKey := func(err error) error {
+		return newError(meta.ErrConvert, fmt.Sprintf("invalid map key '%s'", key), err)
+	}
 	switch t {
-	case proto.INT32:
-		t, _ := strconv.ParseInt(key, 10, 32)
-		if err := self.p.WriteInt32(int32(t)); err != nil {
-			return err
+	case proto.INT32, proto.SINT32, proto.SFIX32:
+		v, err := strconv.ParseInt(key, 10, 32)
+		if err != nil {
+			return badKey(err)
 		}
-	case proto.UINT32:
-		t, _ := strconv.ParseInt(key, 10, 32)
-		if err := self.p.WriteUint32(uint32(t)); err != nil {
-			return err
+		switch t {
+		case proto.INT32:
+			return self.p.WriteInt32(int32(v))
+		case proto.SINT32:
+			return self.p.WriteSint32(int32(v))
+		default:
+			return self.p.WriteSfixed32(int32(v))
 		}
-	case proto.UINT64:
-		t, _ := strconv.ParseInt(key, 10, 64)
-		if err := self.p.WriteUint64(uint64(t)); err != nil {
-			return err
+	case proto.UINT32, proto.FIX32:
+		v, err := strconv.ParseUint(key, 10, 32)
+		if err != nil {
+			return badKey(err)
 		}
-	case proto.INT64:
-		t, _ := strconv.ParseInt(key, 10, 64)
-		if err := self.p.WriteInt64(int64(t)); err != nil {
-			return err
+		if t == proto.UINT32 {
+			return self.p.WriteUint32(uint32(v))
+		}
+		return self.p.WriteFixed32(uint32(v))
+	case proto.UINT64, proto.FIX64:
+		v, err := strconv.ParseUint(key, 10, 64)
+		if err != nil {
+			return badKey(err)
+		}
+		if t == proto.UINT64 {
+			return self.p.WriteUint64(v)
+		}
+		return self.p.WriteFixed64(v)
+	case proto.INT64, proto.SINT64, proto.SFIX64:
+		v, err := strconv.ParseInt(key, 10, 64)
+		if err != nil {
+			return badKey(err)
+		}
+		switch t {
+		case proto.INT64:
+			return self.p.WriteInt64(v)
+		case proto.SINT64:
+			return self.p.WriteSint64(v)
+		default:
+			return self.p.WriteSfixed64(v)
 		}
 	case proto.BOOL:
-		t, _ := strconv.ParseBool(key)
-		if err := self.p.WriteBool(t); err != nil {
-			return err
+		v, err := strconv.ParseBool(key)
+		if err != nil {
+			return badKey(err)
 		}
+		return self.p.WriteBool(v)
 	case proto.STRING:
-		if err := self.p.WriteString(key); err != nil {
-			return err
-		}
+		return self.p.WriteString(key)
 	default:
 		return newError(meta.ErrDismatchType, "invalid mapKeyDescriptor Type", nil)
 	}
-
-	return nil
 }
 
 // Start Parsing JSONField, which may correspond to Protobuf MessageField or Protobuf MapKey
